@@ -134,6 +134,9 @@ def val_json(v) -> dict:
 
 
 def zl(xs) -> str:
+    xs = list(xs)
+    if not xs:
+        return "(@nil Z)"       # typed: a shard whose lists are all empty must still type-check
     return "[" + ";".join(str(int(x)) if int(x) >= 0 else f"({int(x)})" for x in xs) + "]"
 
 
